@@ -1,6 +1,9 @@
 """C06 -- rules whose step function is small enough to be specified against the documented trigger condition."""
 from pyvc.spec import Assumed, Contract, Loop, Raises, register
 from pyvc.spec import REGISTRY as _R
+from pyvc.spec import spec_fn as _spec_fn
+from pyvc.sym import V as _V, fresh as _fresh, sat as _sat, vbool as _vbool
+import z3 as _z3
 
 P = ["C06"]
 RPK = "pymarkdown/plugin_manager/rule_plugin.py::RulePlugin."
@@ -349,4 +352,82 @@ register(Contract(
     ],
     raises=[Raises("BadPluginError")],
     modifies=[A46, "self.__last_token", "g_reports.$list"],
+))
+
+# ------------------------------------------------------------------------------------------------------------ MD040 / MD042 / MD045
+# Three one-step rules.  `str.strip(chars)` is an uninterpreted function of (string, chars) in the encoding (length facts only), so
+# what is proved is: the report is made exactly when the DOCUMENTED field, stripped of the DOCUMENTED character class, is empty
+# (or, MD042, is '#'), for exactly the documented token kinds, once, at the token's own position.  That stripping by `chars` removes
+# exactly the characters of `chars` from both ends is Python's semantics of str.strip (trusted base).
+# rule_md040.md: "This rule is triggered when a fenced code block is used, but a language is not specified" (the info string).
+# rule_md042.md: "triggered when ... an inline link [or image] has an empty link URI" -- empty, only whitespace, or only '#'.
+# rule_md045.md: "This rule is triggered when an image is present that lacks any alternate text" (whitespace-only counts as none).
+_R["$fields"].types.update({"FencedCodeBlockMarkdownToken._FencedCodeBlockMarkdownToken__extracted_text": "str",
+                            "ReferenceMarkdownToken._ReferenceMarkdownToken__link_uri": "str",
+                            "ReferenceMarkdownToken._ReferenceMarkdownToken__pre_link_uri": "Optional[str]",
+                            "ReferenceMarkdownToken._ReferenceMarkdownToken__text_from_blocks": "str"})
+ONE = "len(g_reports) == old(len(g_reports)) + (1 if {c} else 0)"
+AT = "implies({c}, g_reports[len(g_reports) - 1][1] == token.line_number and g_reports[len(g_reports) - 1][2] == token.column_number)"
+def _one_step(mod, cls, tok_type, cond):
+    register(Contract(
+        key=f"pymarkdown/plugins/{mod}.py::{cls}.next_token", properties=P + ["C07"],
+        ghost={"g_reports": "List[Any]"}, types={"token": tok_type},
+        calls={"self.report_next_token_error": RPK + "report_next_token_error"},
+        requires=["has_type(token.line_number, 'int') and has_type(token.column_number, 'int')"],
+        ensures=[ONE.format(c=cond), AT.format(c=cond)],
+        raises=[Raises("BadPluginError")], modifies=["g_reports.$list"]))
+_one_step("rule_md_040", "RuleMd040", "FencedCodeBlockMarkdownToken",
+          "(token.is_fenced_code_block and len(token.extracted_text.strip(Constants.ascii_whitespace)) == 0)")
+_PRE = "token._ReferenceMarkdownToken__pre_link_uri"       # active_link_uri: the pre-processed URI if there is a non-empty one
+_W = ".strip(Constants.ascii_whitespace)"
+_URI = f"({_PRE}{_W} if ({_PRE} is not None and len({_PRE}) > 0) else token._ReferenceMarkdownToken__link_uri{_W})"
+_one_step("rule_md_042", "RuleMd042", "LinkStartMarkdownToken",
+          f"((token.is_inline_link or token.is_inline_image) and (len({_URI}) == 0 or {_URI} == '#'))")
+_one_step("rule_md_045", "RuleMd045", "ImageStartMarkdownToken",
+          "(token.is_inline_image and len(token.text_from_blocks.strip(Constants.unicode_whitespace.value())) == 0)")
+
+# ------------------------------------------------------------------------------------------------------------ MD038
+# rule_md038.md: "triggered when an inline code span has unnecessary spaces at its start or end" -- a single space next to a backtick
+# of the content is necessary and is left alone.  C08: `span_text` is the CONTENT of the code span, so what the fix may ask for is
+# pinned down character for character: the requested text is the old text without its first character (if that is the unnecessary
+# leading space) and without its last character (if that is the unnecessary trailing space) -- nothing else is dropped, so a backtick
+# of the content can never end up next to the fence (seeded change C08-C: `lstrip(' ')` / `rstrip(' ')` instead of `[1:]` / `[:-1]`).
+M38 = "pymarkdown/plugins/rule_md_038.py::RuleMd038."
+
+
+@_spec_fn("same_chars")
+def _same_chars(ex, st, args):
+    """same_chars(new, old, shift, n): new[k] == old[k + shift] for every 0 <= k < n"""
+    new, old, shift, n = args
+    k = _fresh("k", _z3.IntSort())
+    return _vbool(_z3.ForAll([k], _z3.Implies(_z3.And(0 <= k, k < _V.i(n.z)), _sat(_V.s(new.z), k) == _sat(_V.s(old.z), k + _V.i(shift.z)))))
+
+
+_R["$fields"].types.update({"InlineCodeSpanMarkdownToken._InlineCodeSpanMarkdownToken__span_text": "str"})
+S38 = "token._InlineCodeSpanMarkdownToken__span_text"
+LEAD38 = f"({S38}[0] == ' ' and (len({S38}) == 1 or {S38}[1] != '`'))"
+TRAIL38 = f"(len({S38}) > 1 and {S38}[len({S38}) - 1] == ' ' and {S38}[len({S38}) - 2] != '`')"
+TRIG38 = f"(token.is_inline_code_span and ({LEAD38} or {TRAIL38}))"
+A38 = f"(1 if {LEAD38} else 0)"
+B38 = f"(1 if {TRAIL38} else 0)"
+NEW38 = "g_fixreq[len(g_fixreq) - 1][2]"
+register(Contract(
+    key=M38 + "next_token", properties=P + ["C08", "C09"],
+    ghost={"g_reports": "List[Any]", "g_fixreq": "List[Any]"},
+    types={"token": "InlineCodeSpanMarkdownToken"},
+    calls={"self.report_next_token_error": RPK + "report_next_token_error", "self.register_fix_token_request": FIXREQ},
+    requires=["has_type(token.line_number, 'int') and has_type(token.column_number, 'int')",
+              f"implies(token.is_inline_code_span, len({S38}) >= 1)"],         # a code span has content (CommonMark: `` is not a code span)
+    ensures=[
+        f"implies(not context.in_fix_mode, len(g_reports) == old(len(g_reports)) + (1 if {TRIG38} else 0) and len(g_fixreq) == old(len(g_fixreq)))",
+        f"implies(not context.in_fix_mode and {TRIG38}, g_reports[len(g_reports) - 1][1] == token.line_number and "
+        "g_reports[len(g_reports) - 1][2] == token.column_number)",
+        f"implies(context.in_fix_mode, len(g_reports) == old(len(g_reports)) and len(g_fixreq) == old(len(g_fixreq)) + (1 if {TRIG38} else 0))",
+        f"implies(context.in_fix_mode and {TRIG38}, g_fixreq[len(g_fixreq) - 1][0] is token and g_fixreq[len(g_fixreq) - 1][1] == 'span_text')",
+        # the new content is the old content minus the unnecessary space(s), character for character
+        f"implies(context.in_fix_mode and {TRIG38}, len({NEW38}) == len({S38}) - {A38} - {B38})",
+        f"implies(context.in_fix_mode and {TRIG38}, same_chars({NEW38}, {S38}, {A38}, len({S38}) - {A38} - {B38}))",
+    ],
+    raises=[Raises("BadPluginError"), Raises("BadPluginFixError")],
+    modifies=["g_reports.$list", "g_fixreq.$list"],
 ))
